@@ -19,29 +19,33 @@ from vlib.common import Rng
 
 CLAIMED = True
 LEVEL = "proof"
-TECHNIQUE = ("Lean 4 proof over a model regenerated from the source (member lists, reset()/EnsureReset/doTransform "
-             "statement lists; sound static analysis lifted by induction) + induction over API histories, plus a "
-             "correspondence run of random API histories (with aborting transformations) on the real XalanTransformer "
-             "against a fresh transformer")
-LEVEL_TEXT = ("Machine-checked: for every state in which a transformation can stop (all non-sticky members arbitrary, "
-              "VariablesStack index within the stack) ~EnsureReset restores every member classified transient "
-              "(reset_restores_partial), the state the next transformation starts from equals a fresh transformer's "
-              "(start_state_independent_partial), sticky/config members are never written (sticky_untouched), and by induction "
-              "over all finite API histories every reply equals that of a specification that uses a fresh transformer "
-              "per call (history_independent_partial); parameters are sticky and last-write-wins only under the proposed fix "
-              "(param_overwrite_counterexample on the tree as found); the VariablesStack index invariant is proved for a hand model of "
-              "push/pop/setCurrentStackFrameIndex (varstack_reset_from_any_history) and, for properly nested interpreter block programs, at "
-              "every abort point (interpreter_abort_states_midok). The statement lists and member tables are "
-              "regenerated from /repo on every run; random histories on the real library validate the abstraction.")
-LEVEL_NOTE = ("Trusted: Lean kernel; axioms propext/Classical.choice/Quot.sound; translate/c06_reset.py (clang-14 AST for "
-              "members, regex over comment-stripped bodies; unrecognised statements are errors); the classification "
-              "gen/c06_members.json (role of each member with code location; `cache` members are argued, not proved, "
-              "unobservable); the abstraction of an object's state to emptiness of a sequence / null-ness of a pointer "
-              "(modelled, not verified); that the interpreter writes only members classified volatile and keeps "
-              "0 <= m_currentStackFrameIndex <= m_stack.size() (modelled, not verified; exercised by the harness). The "
-              "XSLT interpreter itself is not modelled: output equality with a fresh transformer is checked by the "
-              "correspondence run only, bounded by generator coverage. A memory probe (counting MemoryManager, N identical "
-              "transformations) checks that nothing accumulates per call.")
+TECHNIQUE = ("Lean 4 proof over a model regenerated from the source on every run (member tables of the transformer, its execution "
+             "context and the objects it owns; fully inlined statement list of ~EnsureReset and of doTransform's set-up; scope-guard, "
+             "scratch and stateful-cache site tables) -- a sound static analysis lifted by induction over statement lists, induction "
+             "over API histories (simulation with a specification that uses a fresh transformer per call), induction over block "
+             "programs / scope-guard programs with exceptions -- plus a correspondence run: random API histories with aborting "
+             "transformations on one real XalanTransformer against a newly created one, hook values, memory probe, ASan pass")
+LEVEL_TEXT = ("Machine-checked (20 theorems, axioms propext/Classical.choice/Quot.sound): for every member state in which a "
+              "transformation can stop, ~EnsureReset restores every member classified transient (reset_restores_partial; hypothesis "
+              "MidOk discharged by reset_after_any_abort from the C01 walker statement WalkerPairing), the next transformation starts "
+              "from a fresh transformer's state (start_state_independent_partial), sticky/config/const members are never written "
+              "(sticky_untouched), members restored by scope guards are restored on every exit and stay fresh over all histories "
+              "(scope_guard_restores, guard_sites_all_guarded, guarded_members_stay_fresh), and by induction over all finite API "
+              "histories every reply equals that of a specification using a new transformer per call (history_independent_partial); "
+              "parameters are sticky and last-write-wins (params_sticky, params_follow_spec). All tables are regenerated from /repo "
+              "each run; a dropped reset statement, an unguarded mutation site, a conditionally set collator attribute, a new "
+              "unclassified member each break a named theorem. Random histories on the real library validate the abstraction and "
+              "supply replays.")
+LEVEL_NOTE = ("Trusted: Lean kernel; translate/c06_reset.py (clang-14 AST for members, regex over comment-stripped #if-resolved "
+              "bodies; unrecognised statements are errors); gen/c06_members.json (role of each of the 121 members with code location). "
+              "Modelled, not verified: abstraction of a container to a sequence / a pointer to null-ness; hypothesis object "
+              "WalkerPairing (every startElement push has its endElement pop, properly nested -- C01 walker_eq_recursion / "
+              "variables_balanced -- and indices given to pushCurrentStackFrameIndex lie within the stack); hypothesis object "
+              "GuardedCode (C++ block with a CollectionClearGuard = Prog.scope; the translator checks guard-before-first-mutation "
+              "syntactically); that the interpreter writes only members of volatile roles; the three `cache` members are covered by "
+              "syntactic obligations (scratchSites, statefulCacheSites), not by a semantic proof. The XSLT interpreter's output is not "
+              "modelled: equality with a fresh transformer is established by the correspondence run only (quick ~900 transformations, "
+              "thorough ~97000 + ASan), bounded by generator coverage; hook values and the memory probe check what status/output cannot show.")
 DESIGN_REF = "DESIGN.md section 5, C06; design/C06.md"
 
 THEOREMS = [
@@ -57,6 +61,8 @@ THEOREMS = [
     "XalanModel.Props.C06.varstack_index_restored",
     "XalanModel.Props.C06.varstack_reset_from_any_history",
     "XalanModel.Props.C06.interpreter_abort_states_midok",
+    "XalanModel.Props.C06.reset_after_any_abort",
+    "XalanModel.Props.C06.guarded_member_restored",
     "XalanModel.Props.C06.history_independent_partial",
     "XalanModel.Props.C06.params_sticky",
     "XalanModel.Props.C06.param_last_write_wins",
@@ -177,10 +183,19 @@ class Runner:
                 continue
             a, b = idx[i]
             if a >= len(hout) or (b is not None and b >= len(hout)):
-                res[hi].update(status="crash", at=k - 1, detail="harness stopped (rc=%s): %s" % (p.returncode, herr[-600:]))
+                if o == "new" and hi > 0 and res[hi - 1]["status"] == "ok":
+                    # the process died on `new`, i.e. while DESTROYING the transformer of the previous history
+                    res[hi - 1].update(status="crash", at=len(histories[hi - 1]) - 1, atexit=True,
+                                       detail="harness stopped (rc=%s) while destroying the transformer after this history: %s" % (p.returncode, herr[-600:]))
+                    res[hi].update(status="notrun")
+                    dead.add(hi - 1)
+                    hi_first_lost = hi
+                else:
+                    res[hi].update(status="crash", at=k - 1, detail="harness stopped (rc=%s): %s" % (p.returncode, herr[-600:]))
+                    hi_first_lost = hi + 1
                 dead.add(hi)
                 # every later history is unknown as well
-                for hj in range(hi + 1, len(histories)):
+                for hj in range(hi_first_lost, len(histories)):
                     res[hj].update(status="notrun")
                     dead.add(hj)
                 continue
@@ -241,12 +256,20 @@ class Runner:
                     res[hi].update(status="model", at=k - 1, detail="op %r: implementation %r, model %r" % (o, hv[:200], mv[:200]))
                     dead.add(hi)
         clean_exit = p.returncode == 0
+        if not clean_exit and histories and not any(x["status"] == "crash" for x in res) and len(hout) >= len(hlines):
+            last = max(i for i, x in enumerate(res) if x["status"] != "notrun")
+            if res[last]["status"] == "ok":
+                res[last].update(status="crash", at=len(histories[last]) - 1, atexit=True,
+                                 detail="every reply was produced but the harness did not exit cleanly (rc=%s): destruction of the last "
+                                        "transformer / XalanTransformer::terminate: %s" % (p.returncode, herr[-600:]))
         # a crash loses everything after it: run the remaining histories in a new process (bounded number of restarts)
         crashed = [i for i, x in enumerate(res) if x["status"] == "crash"]
-        if crashed and _depth < 6 and crashed[0] + 1 < len(histories) and tag not in ("shrink", "classify", "objleft"):
-            k = crashed[0] + 1
-            res2, _, _, _ = self.run(histories[k:], tag + "_r", fresh_from=fresh_from, _depth=_depth + 1)
-            res[k:] = res2
+        if crashed and _depth < 6 and tag not in ("shrink", "classify", "objleft"):
+            lost = [i for i, x in enumerate(res) if x["status"] == "notrun"]
+            if lost:
+                k = lost[0]
+                res2, _, _, _ = self.run(histories[k:], tag + "_r", fresh_from=fresh_from, _depth=_depth + 1)
+                res[k:] = res2
         return res, clean_exit, herr, hreq
 
 
@@ -291,7 +314,7 @@ def shrink(runner, ops, want):
     improved, rounds = True, 0
     while improved and rounds < 120:
         improved = False
-        for k in range(len(cur) - 2, -1, -1):
+        for k in range(len(cur) - (1 if want == "crash" else 2), -1, -1):
             cand = cur[:k] + cur[k + 1:]
             if not cand or not valid(cand):
                 continue
@@ -413,7 +436,11 @@ def run(ctx):
                 continue
             if st == "crash":
                 small, last = shrink(rn, ops, "crash")
-                ctx.fail("crash: " + " ; ".join(small), "harness died during this history: " + str(last.get("detail"))[:900], small)
+                if last.get("status") == "crash":
+                    ctx.fail(("crash-at-destruction: " if last.get("atexit") else "crash: ") + " ; ".join(small),
+                             "harness died during this history: " + str(last.get("detail"))[:900], small)
+                else:
+                    state.setdefault("unreproduced", []).append({"history": ops, "detail": rr.get("detail")})
             elif st == "differs":
                 m = rr.get("model") or {}
                 if m.get("P") != m.get("S"):
@@ -436,7 +463,13 @@ def run(ctx):
                 small, last = shrink(rn, ops, "model")
                 ctx.extra.setdefault("model_disagreements", []).append({"ops": small, "detail": last.get("detail")})
 
-    res, clean_exit, herr, hreq = runner.run(hists, "main")
+    # the corpus (minimised past failures, one per seeded break) runs in a process of its own, first: nothing that goes wrong
+    # in a generated history can keep one of its cases from running
+    res_c, clean_c, herr_c, _ = runner.run(hists[:ncorpus], "corpus")
+    res_g, clean_exit, herr, hreq = runner.run(hists[ncorpus:], "main")
+    res = res_c + res_g
+    if not clean_c:
+        clean_exit, herr = False, herr_c
     process(runner, hists, res, True)
     # memory probe (needs no hook): N identical transformations on one transformer that allocates through a counting
     # MemoryManager; the live byte count must not grow per call -- "nothing else carries over" includes memory
@@ -470,6 +503,26 @@ def run(ctx):
         ctx.extra["asan_histories"] = len(sub)
         if not clean2 and not any(x["status"] == "crash" for x in res2):
             ctx.oblige("harness exits cleanly under ASan/UBSan", "correspondence", False, herr2[-1500:])
+    if state.get("unreproduced"):
+        # the crash needs more than one history (heap state): look for a short run of consecutive histories that reproduces it
+        u = state["unreproduced"][0]
+        idx = hists.index(u["history"]) if u["history"] in hists else -1
+        found = None
+        for back in (1, 2, 4, 8, 16):
+            if idx < 0:
+                break
+            sub = hists[max(0, idx - back):idx + 1]
+            r3, clean3, _, _ = Runner(harness, model, work).run(sub, "multi", _depth=99)
+            if any(x["status"] == "crash" for x in r3) or not clean3:
+                found = sub
+                break
+        if found:
+            flat = " || ".join(" ; ".join(h) for h in found)
+            ctx.fail("crash[multi-history]: " + flat, "the harness dies when these histories are run one after the other in one process "
+                     "(each on its own transformer): " + str(u["detail"])[:600], found)
+        else:
+            ctx.oblige("harness survives every history", "correspondence", False,
+                       "a crash was seen that neither the history alone nor with up to 16 predecessors reproduces: " + str(u)[:1200])
     agree = state["agree"]
     hook_seen = state["hook"]
     leak_depth = state["leak"]
@@ -497,6 +550,11 @@ def replay(ctx, path):
     harness = common.build_harness("c06_reuse", ["c06_reuse.cpp"], flavor="hooks")
     work = os.path.join(common.CACHE, "work")
     os.makedirs(work, exist_ok=True)
+    if ops and isinstance(ops[0], list):
+        res, clean, herr, hreq = Runner(harness, model, work).run(ops, "replay", _depth=99)
+        print("histories:", ops)
+        print("result:", [x["status"] for x in res], "clean exit:", clean, herr[-300:])
+        return 0 if clean and all(x["status"] == "ok" for x in res) else 1
     if ops and ops[0].startswith("leakprobe"):
         out = Runner(harness, model, work).probe(ops)
         print("probe:", ops, "->", out)
